@@ -348,3 +348,39 @@ def use_lemma(name, cond):
     ctx.add(sc.tobool(cond))
     ctx.assumed.append('lemma instance assumed: %s (discharged by its own lemma harness)' % name)
     ctx.axiom_log.add('lemma:%s' % name)
+
+
+def AscendingInts(name, lo=0):
+    """symbolic strictly ascending list of integers ns (length L >= 1, ns[0] >= lo): an SList whose sortedness is a
+    universally quantified precondition instantiated at every pair of hint terms."""
+    L = Int(name + '.len', 1)
+    f = z3.Function(name, z3.IntSort(), z3.IntSort())
+    ctx.inputs[name] = ('array', [L], [f], 'i')
+    touched = {}
+
+    def getter(p):
+        p = lift(p)
+        pz = z3.simplify(p.z)
+        if pz.get_id() not in touched:
+            touched[pz.get_id()] = pz
+            ctx.add_hint(SInt(pz))       # sortedness is instantiated at every index the execution touches
+        return SInt(f(pz))
+    ns = SList(L, getter)
+    ctx.add(f(z3.IntVal(0)) >= lo)
+    seen = []
+
+    def inst(t):
+        if not isinstance(t, SInt):
+            return z3.BoolVal(True)
+        cs = [z3.Implies(z3.And(t.z >= 0, t.z < L.z), f(t.z) >= lo + t.z)]       # strictly ascending from lo: ns[t] >= lo + t
+        if any(t.z.eq(u.z) for u in seen):
+            return z3.BoolVal(True)
+        for u in seen:
+            cs.append(z3.Implies(z3.And(0 <= t.z, t.z < u.z, u.z < L.z), f(t.z) < f(u.z)))
+            cs.append(z3.Implies(z3.And(0 <= u.z, u.z < t.z, t.z < L.z), f(u.z) < f(t.z)))
+        seen.append(t)
+        return z3.And(*cs)
+    ctx.add_forall(inst)
+    ctx.add_hint(lift(0))
+    ctx.add_hint(L - 1)
+    return ns, L
